@@ -10,7 +10,7 @@ Timer arithmetic of server sessions (property C02, timing clauses).  Times are n
                                          && now - Unix(udpLastPacketTime) >= IdleTimeout         → timed out
   server_session_media.go      every UDP packet: udpLastPacketTime = now.UnixNano()
   server_session.go            every request: lastRequestTime = now; PLAY/RECORD: udpLastPacketTime = now.UnixNano()
-                               (whole seconds before fix c10dc6a: a live publisher was timed out with ReadTimeout = 1 s)
+                               (whole seconds before fix a905e5a: a live publisher was timed out with ReadTimeout = 1 s)
 
 Core Lean only.
 -/
